@@ -343,7 +343,24 @@ def run_threaded(res: Result, seed: int) -> None:
                     injected.append((inst, ttl))
                 rig.inject(zc, R.build_response([(("PTR", T, (inst,)), ttl, False)], id_=i + 1))
                 time.sleep(rng.choice([0.0, 0.002, 0.02]))
-            time.sleep(0.4)
+            # quiescence, not a wall-clock guess: a round trip through the loop (everything injected has been processed), then
+            # the browser thread's queue empty on two looks 50 ms apart; a generous watchdog makes the run inconclusive
+            quiet = False
+            deadline = time.monotonic() + 20.0
+            while time.monotonic() < deadline:
+                __import__("asyncio").run_coroutine_threadsafe(_cached(zc, T), zc.loop).result(10)
+                if browser.queue.empty():
+                    time.sleep(0.05)
+                    with lock:
+                        if browser.queue.empty():
+                            quiet = True
+                            break
+                time.sleep(0.02)
+            if not quiet:
+                res.inconclusive.append("threaded browser run: callbacks still pending 20 s after the last datagram (machine overloaded?)")
+                browser.cancel()
+                zc.close()
+                return
             res.mon("c04.threaded")
             if withdrawn_meanwhile:
                 res.obs("threaded_add_callback_ran_after_a_later_goodbye_removed_the_record", len(withdrawn_meanwhile))
